@@ -5,6 +5,7 @@ package zzverifpositive
 
 import (
 	"archive/zip"
+	"bytes"
 	"encoding/csv"
 	stdhtml "html"
 	"io"
@@ -328,3 +329,34 @@ func ToTextBlanksTitle(chunks []*exportedChunk) string {
 	}
 	return sb.String()
 }
+
+// ReencodesCodeUnits violates R6.12: every byte of a multi-byte character becomes a code point of its own.
+func ReencodesCodeUnits(s string) string {
+	var sb strings.Builder
+	for i := 0; i < len(s); i++ {
+		c := s[i]
+		if c == '|' {
+			sb.WriteString("\\|")
+			continue
+		}
+		sb.WriteRune(rune(c))
+	}
+	return sb.String()
+}
+
+type selOptions struct{ pages []int }
+type SelHolder struct{ options selOptions }
+
+// FiltersStoredSelectionInPlace violates R10.14: the result overwrites the receiver's selection.
+func (h *SelHolder) FiltersStoredSelectionInPlace(n int) []int {
+	out := h.options.pages[:0]
+	for _, p := range h.options.pages {
+		if p >= 1 && p <= n {
+			out = append(out, p-1)
+		}
+	}
+	return out
+}
+
+// StripsUnicodeSpace violates R5.13.
+func StripsUnicodeSpace(data []byte) []byte { return bytes.Join(bytes.Fields(data), nil) }
